@@ -387,6 +387,43 @@ def run(prog: Program) -> Results:
             res.add("R-C18-10", (cn, "recorded field never consulted", fld), prog.own_method(cn, "rebuild").loc() if prog.own_method(cn, "rebuild") else fc.loc(),
                     f"{cn}: from_cst records `{fld}` but no method of the class reads `self.{fld}`: the recorded layout is dropped and the "
                     f"renderer falls back to a synthesised one (spaces/newlines that were not in the input)")
+    # ---------------------------------------------------------------- R-C18-11
+    r11 = res.rule("R-C18-11", "attrpath segments are normalised on every path of the splitter: every list _split_attrpath returns "
+                   "is built from `.strip()`-ed pieces (whitespace and tabs around the dots of `a . b\t.c = 1;` are layout, not name)",
+                   floor=1)
+    sp = prog.func("_split_attrpath")
+    res.analysed_functions.add(sp.key)
+
+    def stripped_expr(e) -> bool:
+        if isinstance(e, ast.Call) and isinstance(e.func, ast.Attribute) and e.func.attr == "strip" and not e.args:
+            return True
+        if isinstance(e, ast.Name):
+            ds = [d for d in ast.walk(sp.node) if isinstance(d, ast.Assign) and norm(d.targets[0]) == e.id]
+            return bool(ds) and all(stripped_expr(d.value) for d in ds)
+        return False
+
+    def stripped_list(e) -> bool:
+        if isinstance(e, ast.Name):
+            ds = [d for d in ast.walk(sp.node) if isinstance(d, (ast.Assign, ast.AnnAssign)) and norm(d.targets[0] if isinstance(d, ast.Assign) else d.target) == e.id
+                  and getattr(d, "value", None) is not None]
+            apps = [c for c in ast.walk(sp.node) if isinstance(c, ast.Call) and isinstance(c.func, ast.Attribute) and c.func.attr == "append"
+                    and norm(c.func.value) == e.id]
+            return bool(ds) and all((isinstance(d.value, ast.List) and not d.value.elts) or stripped_list(d.value) for d in ds) and \
+                all(stripped_expr(c.args[0]) for c in apps)
+        if isinstance(e, ast.ListComp):
+            return stripped_expr(e.elt)
+        if isinstance(e, ast.List):
+            return all(stripped_expr(x) for x in e.elts)
+        return False
+
+    for rt in [n for n in walk_no_nested(sp.node) if isinstance(n, ast.Return) and n.value is not None]:
+        r11.instances += 1
+        ok = stripped_list(rt.value)
+        r11.ob(ok, {"return": norm(rt)[:60]})
+        if not ok:
+            res.add("R-C18-11", (sp.key, "segments returned without stripping"), sp.loc(rt),
+                    f"_split_attrpath: `{norm(rt)[:60]}` returns pieces that did not pass `.strip()`: for `services\\t.\\tnginx.enable = true;` "
+                    f"the tab and the alignment spaces around the dots become part of the names and are written back verbatim")
     res.assumptions = ["`;`/`:` attachment and exactly-one-space between tokens are value-level facts not decided here"]
     return res
 
